@@ -148,6 +148,12 @@ def check(prop, tier, seed, replay=None):
             run_harness(exe, ["--fam", plan["fam"], "--n", str(cfg["n"]), "--seed", str(seed)], out)
             traces.append((out, {"family": "lie", "fam": plan["fam"], "g": g, "sc": sc, "n": cfg["n"], "seed": seed,
                                  "group": GROUPS[g]}))
+        if prop == "C05":
+            # generic helpers d_matrix_product / d2_fog (clauses C05.dprod, C05.fog)
+            exe = V.build_one("derivs.cpp", [])
+            out = os.path.join(workdir, "derivs.ndjson")
+            run_harness(exe, ["--n", "1" if tier == "quick" else "12", "--seed", str(seed)], out)
+            traces.append((out, {"family": "lie", "harness": "derivs", "seed": seed}))
         if prop == "C06":
             # dynamically sized Eigen vectors (sizes 0..6) through the free-function interface
             exe = V.build_one("lie_dyn.cpp", [])
